@@ -425,9 +425,15 @@ Definition prepare_stream (nm : name) (objs_dks : dict dks) : M descr :=
 Definition reset_checkpoint_state : M unit :=
   modify (fun s => set_b_seq_copy (dupdate (b_seq_copy s) (b_seq s)) s).
 
+(* the counter of the "interruptions" stream survives a rewind (interruption records are never replayed) *)
+Definition rewound_seq (seq copy : dict Z) : dict Z :=
+  match dget seq interruptions_name with
+  | Some v => dset (dupdate [] copy) interruptions_name v
+  | None => dupdate [] copy
+  end.
 Definition rewind : M unit :=
   modify (fun s =>
-    let sc := fill_missing (dkeys (b_descriptor_objs s)) (dupdate [] (b_seq_copy s), b_seq_copy s) in
+    let sc := fill_missing (dkeys (b_descriptor_objs s)) (rewound_seq (b_seq s) (b_seq_copy s), b_seq_copy s) in
     set_b_bundling false (set_b_seq_copy (snd sc) (set_b_seq (fst sc) s))).
 
 (* ------------------------------------------------------------------ open_run / close_run *)
